@@ -6,7 +6,10 @@
 //     so no identifier changes);
 //   - every statement that contains a channel operation (send, receive, select, range over a
 //     channel cannot be told apart syntactically and is left alone) gets a scheduling point before
-//     and after it, and every `go` statement one before it.
+//     and after it, and every `go` statement one before it;
+//   - plain receives (`<-ch` as a statement, `v := <-ch`, `v = <-ch`, `v, ok := <-ch`; not the headers of
+//     select clauses) become verifsched.Recv / Recv2: the scheduler disables the thread until a value or
+//     the close is there, instead of letting the coroutine block for real.
 //
 // The shim packages are added as virtual directories <repo>/verifshim/{sched,sync,sync/atomic,clock};
 // calls of time.Now are redirected to verifshim/clock (the machine's clock unless a check installs a source).
